@@ -51,6 +51,10 @@ MUTATIONS = [
     ("dask_expr/_reductions.py", "            j += 1\n            keys = new_keys", "            keys = new_keys", "vf.contracts.layers:TreeReduceLayer", "inv-preserved:loop0"),
     ("dask_expr/_reductions.py", "        d[self._name, 0] = (apply, self.aggregate, [keys], self.aggregate_kwargs)", "        d[self._name, 0] = (apply, self.aggregate, [keys[:-1]], self.aggregate_kwargs)", "vf.contracts.layers:TreeReduceLayer", "post:final-aggregates-the-last-level"),
     ("dask_expr/_reductions.py", "                    d[self._name, j, i] = (self.combine, batch)", "                    d[self._name, j, i] = (self.combine, batch[1:])", "vf.contracts.layers:TreeReduceLayer", "post:each-batch-combines-consecutive-keys-of-the-previous-level"),
+    ("dask_expr/_core.py", "        return {(self._name, i): self._task(i) for i in range(self.npartitions)}", "        return {(self._name, i): self._task(i) for i in range(1, self.npartitions)}", "vf.contracts.layers:ExprLayer", "post:K1-output-i-is-task-i"),
+    ("dask_expr/_expr.py", "        args = [self._blockwise_arg(op, index) for op in self._args]\n        if self._kwargs:", "        args = [self._blockwise_arg(op, 0) for op in self._args]\n        if self._kwargs:", "vf.contracts.layers:BlockwiseTask", "post:operation-applied-to-every-operand-argument-in-order"),
+    ("dask_expr/_expr.py", "            self.divisions[index],\n            self.divisions[index + 1],", "            self.divisions[index],\n            self.divisions[index],", "vf.contracts.layers:EnforceDivisionsTask", "post:partition-checked-against-its-own-bounds"),
+    ("dask_expr/_expr.py", "            index == (self.npartitions - 1),", "            index == self.npartitions,", "vf.contracts.layers:EnforceDivisionsTask", "post:last-partition-flag"),
     ("dask_expr/_repartition.py", "        nsplits[-1] += mod\n", "        nsplits[0] += mod\n", "vf.contracts.layers:MoreNSplits", "post:"),
     ("dask_expr/_repartition.py", "        return (None,) * (1 + sum(self._nsplits))", "        return (None,) * (1 + len(self._nsplits))", "vf.contracts.layers:MoreDivisions", "post:length-new+1"),
     ("dask_expr/io/io.py", "        for part, k in enumerate(self.operand(\"keys\")):\n            dsk[(self._name, part)] = k", "        for part, k in enumerate(sorted(self.operand(\"keys\"))):\n            dsk[(self._name, part)] = k", "vf.contracts.layers:FromGraphLayer", "HARMLESS-OR-UNDECIDED"),
